@@ -8,9 +8,11 @@ cd "$wt" || exit 2
 git checkout -q -- . ; git apply "$patch" || { echo "patch does not apply"; exit 2; }
 cd "${VERIF_DIR:-/verif}"
 for id in "$@"; do
+  rm -f /tmp/ev-trial-wt/$id.json
   out=$(VERIF_REPO="$wt" VERIF_EVIDENCE_DIR=/tmp/ev-trial-wt ./check "$id" --tier quick 2>&1); code=$?
   v=$(echo "$out" | grep -m1 '^VIOLATION' ); s=$(echo "$out" | grep -A1 -m1 '^VIOLATION' | tail -1)
-  echo "$id exit=$code $v"
+  vr=$(python3 -c "import json;print(json.load(open('/tmp/ev-trial-wt/$id.json'))['coverage'].get('counters',{}).get('violating_runs',0))" 2>/dev/null)
+  echo "$id exit=$code violating_runs=${vr:-?} $v"
   [ -n "$v" ] && echo "    $s"
   [ $code -eq 2 ] && echo "$out" | tail -5
 done
